@@ -172,15 +172,43 @@ def run_impl(b: Built, rng=None):
     from elementpath import get_node_tree
     from elementpath.tree_builders import build_node_tree, build_lxml_node_tree
     c = b.case
-    ns = None if c['ns'] is None else dict(c['ns'])
+    ns = None if c['ns'] is None else dict(c['ns'])      # the caller-owned mapping
     try:
-        if c.get('direct'):
+        owned_flaws = []
+        if c.get('via') == 'ctx':
+            from elementpath import XPathContext
+            vs = {'n': 5}
+            docs = {}
+            ctx = XPathContext(b.root, namespaces=ns, fragment=c['frag'], variables=vs, documents=docs)
+            root = ctx.root
+        elif c.get('direct'):
             if b.lib == 'L':
                 root = build_lxml_node_tree(b.root, fragment=c['frag'])
             else:
                 root = build_node_tree(b.root, ns, fragment=c['frag'])
         else:
             root = get_node_tree(b.root, ns, fragment=c['frag'])
+        if c.get('mutate'):
+            # history: the caller changes its own inputs after the construction and BEFORE any lazily built
+            # part (namespace nodes, attribute positions) is first produced; the image must be the one
+            # of the inputs as they were at construction (that is what the request line describes)
+            if ns is not None:
+                ns['zz1'] = 'm1'
+                ns['zz2'] = 'm2'
+                ns.setdefault('xml', XML_NS)
+                for k in list(ns)[:1]:
+                    if k not in ('zz1', 'zz2', 'xml'):
+                        del ns[k]
+            if c.get('via') == 'ctx':
+                vs['n'] = 6
+                vs['m'] = 1
+                docs['late'] = b.root
+                if ctx.variables != {'n': 5}:
+                    owned_flaws.append('variables-dict-aliased')
+                if ctx.documents:
+                    owned_flaws.append('documents-dict-aliased')
+                if ns is not None and dict(ctx.namespaces) != dict(c['ns']):
+                    owned_flaws.append('namespaces-dict-aliased')
         walks = None
         if rng is not None:
             # before anything lazy is built: iter_lazy / iter_descendants, then build some lazy lists
@@ -206,7 +234,7 @@ def run_impl(b: Built, rng=None):
                      'lazy0': idxs_str(l0, index), 'lazy1': idxs_str(l1, index),
                      'desc': idxs_str(d0, index) if [id(x) for x in d0] == [id(x) for x in d1] else 'UNSTABLE'}
         out = []
-        flaws = []
+        flaws = list(owned_flaws)
         for k, n in enumerate(nodes):
             par = -1 if n.parent is None else index.get(id(n.parent), -2)
             name = n.name
@@ -721,8 +749,11 @@ def gen_cases(rng, quick=True):
                 c_top, path = sub, []
             else:
                 c_top = top
-            cases.append(dict(lib=lib, tree=tree, frag=frag, ns=rng.choice(NS_ARGS), path=path,
-                              pro=pro, top=c_top, epi=epi, direct=rng.random() < 0.3))
+            nsarg = rng.choice(NS_ARGS)
+            via = 'ctx' if rng.random() < 0.25 else None
+            cases.append(dict(lib=lib, tree=tree, frag=frag, ns=nsarg, path=path,
+                              pro=pro, top=c_top, epi=epi, direct=via is None and rng.random() < 0.3,
+                              via=via, mutate=rng.random() < (0.5 if nsarg is not None else 0.15)))
     if rng.random() < 0.01:
         cases.append(dict(lib=rng.choice('EL'), tree=True, frag=rng.choice([None, True, False]),
                           ns=rng.choice(NS_ARGS), path=[], pro=[], top=None, epi=[], direct=False))
@@ -762,6 +793,13 @@ def corpus() -> list[dict]:
     for lib in 'EL':
         for frag in (None, True, False):
             out.append(dict(base, lib=lib, tree=True, top=None, frag=frag))
+    # caller-owned inputs changed after construction, before the lazy nodes exist
+    tm = E('r', [E('x')], attrs=[('a', '1')])
+    for lib in 'EL':
+        for via in (None, 'ctx'):
+            for direct in (False, True):
+                for nsarg in ([], [('p', 'u1')], [('xml', XML_NS), ('p', 'u1')]):
+                    out.append(dict(base, lib=lib, top=tm, ns=nsarg, via=via, direct=direct and via is None, mutate=True))
     return out
 
 
@@ -833,6 +871,11 @@ def compare(run: Run, cases: list[dict], nops: int = 6, stats: bool = True) -> N
                 st.count('result:element-root')
             if c.get('direct'):
                 st.count('called:build_*_node_tree directly')
+            if c.get('via') == 'ctx':
+                st.count('called:XPathContext(root, namespaces, variables, documents)')
+            if c.get('mutate'):
+                st.count('history:caller-owned inputs mutated before first lazy use' +
+                         ('/namespaces-dict' if c['ns'] is not None else '/no-namespaces-dict'))
         if impl_spec != spec:
             tags = []
             if stats and not impl_spec.startswith(('ERR', 'NONSTRICT', 'ITER')) and spec != 'ERR':
